@@ -5,7 +5,7 @@ From Coq Require Import NArith List Bool.
 Import ListNotations.
 From Coq Require Import ZArith.
 From CXV Require Import Gen.TokTy Gen.ParserTables Parse.Balanced Gen.Blocks Parse.BlocksSM.
-From CXV Require Import Base.Regex Gen.LexRules Lex.PlyLoop Gen.StreamTables Stream.TokBuf.
+From CXV Require Import Base.Regex Base.Cost Gen.LexRules Lex.PlyLoop Gen.StreamTables Stream.TokBuf.
 Open Scope N_scope.
 
 Definition nlen {A} (l : list A) : N := N.of_nat (length l).
@@ -179,8 +179,16 @@ Definition run_stream (args : list N) : list N :=
   let st := stream_of file text in
   do_ops (length ops) (mkI st [] (file, 1%Z)) ops.
 
+(* args: cap, text -> [steps] (capped) *)
+Definition run_lexcost (args : list N) : list N :=
+  match args with
+  | cap :: text => [lex_cost cap (map fst rules) (length text) text 0]
+  | [] => [99]
+  end.
+
 Definition run_case (cmd : N) (args : list N) : list N :=
   match cmd, args with
+  | 21, _ => run_lexcost args
   | 30, _ => run_stream args
   | 20, _ => run_lex args
   | 10, _ => run_blocks args
